@@ -338,6 +338,27 @@ static void op_closure(const McArg *a) {
             ij.j = ij0.j + dj;
             if (CALL(localIjToCell(h, &ij, 0, &o)) == 0) chk_out("localIjToCell", h, o, res);
         }
+    // a lat/lng box that wholly contains the cell and its neighbours, filled one and two resolutions finer (whole coarse cells -- pentagons
+    // among them -- are emitted compactly and expanded by the child iterator)
+    if (cb.numVerts >= 3 && res >= 1 && res <= 13 && (spec_is_pentagon(h) || spec_digit(h, res) == 3)) {
+        double rad = 0;
+        for (int i = 0; i < cb.numVerts; i++) rad = fmax(rad, adist(c, cb.verts[i]));
+        double hw = 2.6 * rad;
+        if (fabs(c.lat) + hw < M_PI / 2 - 0.05 && hw / cos(c.lat) < 1.0) {
+            LatLng bx[4] = {{c.lat - hw, c.lng - hw / cos(c.lat)}, {c.lat - hw, c.lng + hw / cos(c.lat)}, {c.lat + hw, c.lng + hw / cos(c.lat)}, {c.lat + hw, c.lng - hw / cos(c.lat)}};
+            for (int i = 0; i < 4; i++) bx[i].lng = geo_wrap(bx[i].lng);
+            GeoPolygon box = {{4, bx}, 0, NULL};
+            for (int r = res + 1; r <= res + 2 && r <= 15; r++)
+                for (uint32_t fl = 0; fl < 4; fl += (mc_thorough ? 1 : 2)) {
+                    int64_t n;
+                    if (CALL(maxPolygonToCellsSizeExperimental(&box, r, fl, &n)) == 0 && n < 20000) {
+                        uint64_t *pb = calloc(n ? n : 1, 8);
+                        if (CALL(polygonToCellsExperimental(&box, r, fl, n, pb)) == 0) chk_arr("polygonToCellsExperimental(box around the cell)", h, pb, n, r);
+                        free(pb);
+                    }
+                }
+        }
+    }
     // polygon fills of the cell's own outline, one and two resolutions finer
     if (cb.numVerts >= 3) {
         GeoPolygon poly = {{cb.numVerts, cb.verts}, 0, NULL};
